@@ -261,6 +261,7 @@ type VC struct {
 	needToHash  bool
 	inCommute   bool            // inside the hypothetical iterations of a commute obligation
 	pureDecl    map[string]bool
+	resolveDepth int
 	commuteKeys map[string][]Val // "@loopN." -> the two keys of that loop's commute obligations (key1/key2 in a finding's class)
 	commuteKeyT map[string]types.Type
 	forcedKey   map[string]Term // map iterator -> key the next range step must yield (commute.go)
@@ -915,6 +916,12 @@ func (vc *VC) simplifyIte(t Term) Term {
 			s = d
 			continue
 		}
+		if strings.HasPrefix(s, "(select ") {
+			if r := vc.resolve(s); r != s {
+				s = r
+				continue
+			}
+		}
 		if strings.HasPrefix(s, "(ite ") {
 			parts := splitSexp(s[1 : len(s)-1])
 			if len(parts) == 4 {
@@ -1008,6 +1015,13 @@ func (vc *VC) resolve(s string) string {
 			continue
 		}
 		break
+	}
+	if strings.HasPrefix(s, "(ite ") && vc.resolveDepth < 6 {
+		// the stored value may itself be a conditional over the aux maps (precision inherited on first use)
+		vc.resolveDepth++
+		r := vc.simplifyIte(mk(s, nil)).S
+		vc.resolveDepth--
+		return r
 	}
 	return s
 }
